@@ -252,6 +252,21 @@ def Obj.append (o r : Obj α) : Option (Obj α) :=
                   rdesc := rd.set "index" (rangeLbl (o.nRdm + r.nRdm)) }
   else Option.none
 
+/-- round 6 — `append_descriptor` as coded: the entry of the appended dictionary `arg` that is
+    stacked under the receiver's key `k`.  The *generated* leaf `Gen.C10.appendByName` (derived from
+    the loop `descriptor[k] = list(v) + list(desc_new[k])`) says the dictionary is read by NAME; the
+    other reading a dictionary walk could have — the entry at the same POSITION — is kept as the
+    alternative so that the order-freeness theorems depend on the leaf. -/
+def appendGet (recv arg : Desc) (k : String) : Option (List Lbl) :=
+  if Rsa.Gen.C10.appendByName = 1 then arg.get k
+  else (arg[recv.keys.idxOf k]?).map (·.2)
+
+/-- the rdm descriptors `append` leaves in the receiver: every column of the receiver extended by
+    the argument's column `appendGet` names, `index` renumbered over `total` rows -/
+def appendDesc (recv arg : Desc) (total : Nat) : Desc :=
+  Desc.set (recv.map (fun kv => (kv.1, kv.2 ++ (appendGet recv arg kv.1).getD []))) "index"
+    (rangeLbl total)
+
 /-- `copy()` / `rdms_from_dict(to_dict())`: the same content -/
 def Obj.copy (o : Obj α) : Option (Obj α) := mk2d o.vecs o.odesc o.rdesc o.pdesc
 
